@@ -612,7 +612,11 @@ impl<'a, S: Storage> BTree<'a, S> {
         let free_end = u16::from_le_bytes([page_data[6], page_data[7]]) as usize;
         let cell_count = u16::from_le_bytes([page_data[2], page_data[3]]) as usize;
 
-        if cell_count > 0 {
+        if cell_count == 0 {
+            // an empty leaf gives no lower bound for the key: only the descent knows where it belongs
+            return Ok(false);
+        }
+        {
             let last_slot_off = LEAF_CONTENT_START + (cell_count - 1) * SLOT_SIZE;
             let last_slot = &page_data[last_slot_off..last_slot_off + SLOT_SIZE];
             let off = u16::from_le_bytes([last_slot[4], last_slot[5]]) as usize;
@@ -835,11 +839,13 @@ impl<'a, S: Storage> BTree<'a, S> {
         }
 
         let cell_count = leaf.cell_count() as usize;
-        if cell_count > 0 {
-            let last_key = leaf.key_at(cell_count - 1)?;
-            if key <= last_key {
-                return Ok(false);
-            }
+        if cell_count == 0 {
+            // an empty leaf gives no lower bound for the key: only the descent knows where it belongs
+            return Ok(false);
+        }
+        let last_key = leaf.key_at(cell_count - 1)?;
+        if key <= last_key {
+            return Ok(false);
         }
 
         let value_len_size = varint_len(value.len() as u64);
